@@ -12,14 +12,28 @@ func init() {
 }
 
 type c11call struct {
-	plugin string // Equal | Compare
-	suffix string // "", "A", "B"
-	typ    int    // 1..3
+	plugin  string // Equal | Compare
+	suffix  string // "", "A", "B"
+	typ     int    // 1..3
+	curried bool   // one-argument form: deriveEqual(a)(b), a different argument type list under the same name
 }
 
 func (c c11call) name() string { return "derive" + c.plugin + c.suffix }
 
-func (c c11call) src() string {
+func (c c11call) src() string { return c.srcLate(false) }
+
+// srcLate: with late, the first argument is itself a derive call (Clone), so the
+// call can only be registered in a second pass.
+func (c c11call) srcLate(late bool) string {
+	if late && (c.plugin == "Equal" || c.plugin == "Compare") {
+		if c.curried {
+			return fmt.Sprintf("_ = %s(deriveCloneL%d(&T%d{}))(&T%d{})", c.name(), c.typ, c.typ, c.typ)
+		}
+		return fmt.Sprintf("_ = %s(deriveCloneL%d(&T%d{}), &T%d{})", c.name(), c.typ, c.typ, c.typ)
+	}
+	if c.curried {
+		return fmt.Sprintf("_ = %s(&T%d{})(&T%d{})", c.name(), c.typ, c.typ)
+	}
 	switch c.plugin {
 	case "Clone":
 		return fmt.Sprintf("_ = %s(&T%d{})", c.name(), c.typ)
@@ -29,7 +43,12 @@ func (c c11call) src() string {
 	return fmt.Sprintf("_ = %s(&T%d{}, &T%d{})", c.name(), c.typ, c.typ)
 }
 
-func (c c11call) String() string { return fmt.Sprintf("%s(*T%d)", c.name(), c.typ) }
+func (c c11call) String() string {
+	if c.curried {
+		return fmt.Sprintf("%s(*T%d)(*T%d)", c.name(), c.typ, c.typ)
+	}
+	return fmt.Sprintf("%s(*T%d)", c.name(), c.typ)
+}
 
 type c11pkg struct {
 	calls    []c11call
@@ -38,6 +57,7 @@ type c11pkg struct {
 	userVar  bool // the user's callables are package-level variables of function type, not func declarations
 	lateUse  bool // the user functions are called only from the last file (two-file layout)
 	pregen   bool // derived.gen.go already holds the output for the first call alone (an earlier run)
+	late     bool // every call after the first takes a derive call as its first argument: clashes only show in a second pass
 }
 
 func (p c11pkg) label() string {
@@ -60,6 +80,9 @@ func (p c11pkg) label() string {
 	}
 	if p.pregen {
 		l += " [after an earlier run on the first call alone]"
+	}
+	if p.late {
+		l += " [calls after the first take deriveClone(...) as first argument: registered in a second pass]"
 	}
 	return l
 }
@@ -86,8 +109,8 @@ func (p c11pkg) files() pkgFiles {
 		split = len(p.calls) // every derive call in the first file, the user functions' only use in the last
 	}
 	a.WriteString("func useA() {\n")
-	for _, c := range p.calls[:split] {
-		a.WriteString("\t" + c.src() + "\n")
+	for i, c := range p.calls[:split] {
+		a.WriteString("\t" + c.srcLate(p.late && i > 0) + "\n")
 	}
 	a.WriteString("}\n")
 	fs := pkgFiles{"a.go": a.String()}
@@ -98,7 +121,7 @@ func (p c11pkg) files() pkgFiles {
 		}
 		b.WriteString("func useB() {\n")
 		for _, c := range p.calls[split:] {
-			b.WriteString("\t" + c.src() + "\n")
+			b.WriteString("\t" + c.srcLate(p.late) + "\n")
 		}
 		b.WriteString("}\n")
 		fs["b.go"] = b.String()
@@ -114,8 +137,12 @@ func (p c11pkg) clashes() (conflict, duplicate bool) {
 		if byName[c.name()] == nil {
 			byName[c.name()] = map[int]bool{}
 		}
-		byName[c.name()][c.typ] = true
-		k := fmt.Sprintf("%s/%d", c.plugin, c.typ)
+		tl := c.typ // the argument type list: (T, T) or, curried, (T)
+		if c.curried {
+			tl += 100
+		}
+		byName[c.name()][tl] = true
+		k := fmt.Sprintf("%s/%d", c.plugin, tl)
 		if byPT[k] == nil {
 			byPT[k] = map[string]bool{}
 		}
@@ -144,16 +171,17 @@ func checkC11(tier string) {
 	for _, pl := range []string{"Equal", "Compare"} {
 		for _, sf := range []string{"", "A", "B"} {
 			for t := 1; t <= 3; t++ {
-				alphabet = append(alphabet, c11call{pl, sf, t})
+				alphabet = append(alphabet, c11call{pl, sf, t, false})
 			}
 		}
 	}
+	alphabet = append(alphabet, c11call{"Equal", "", 1, true}, c11call{"Equal", "A", 1, true})
 	// second alphabet: Clone requests its DeepCopy helper on its own; the user's DeepCopy names must not collide with it
 	var alphabet2 []c11call
 	for t := 1; t <= 2; t++ {
-		alphabet2 = append(alphabet2, c11call{"Clone", "", t})
+		alphabet2 = append(alphabet2, c11call{"Clone", "", t, false})
 		for _, sf := range []string{"", "A"} {
-			alphabet2 = append(alphabet2, c11call{"DeepCopy", sf, t})
+			alphabet2 = append(alphabet2, c11call{"DeepCopy", sf, t, false})
 		}
 	}
 	var pkgs []c11pkg
@@ -164,13 +192,16 @@ func checkC11(tier string) {
 				if two && len(cur) < 2 {
 					continue
 				}
+				if len(cur) >= 2 && (len(cur) == 2 || tier == "thorough") && cur[0].plugin != "Clone" && cur[0].plugin != "DeepCopy" {
+					pkgs = append(pkgs, c11pkg{calls: append([]c11call(nil), cur...), twoFiles: two, late: true})
+				}
 				for _, uf := range []int{0, 1, 2} {
-					pkgs = append(pkgs, c11pkg{append([]c11call(nil), cur...), two, uf > 0, uf == 2, false, false})
+					pkgs = append(pkgs, c11pkg{append([]c11call(nil), cur...), two, uf > 0, uf == 2, false, false, false})
 					if len(cur) >= 2 && !two && uf < 2 {
-						pkgs = append(pkgs, c11pkg{append([]c11call(nil), cur...), two, uf > 0, false, false, true})
+						pkgs = append(pkgs, c11pkg{append([]c11call(nil), cur...), two, uf > 0, false, false, true, false})
 					}
 					if two && uf > 0 {
-						pkgs = append(pkgs, c11pkg{append([]c11call(nil), cur...), two, true, uf == 2, true, false})
+						pkgs = append(pkgs, c11pkg{append([]c11call(nil), cur...), two, true, uf == 2, true, false, false})
 					}
 				}
 			}
@@ -206,7 +237,7 @@ func checkC11(tier string) {
 		files := it.p.files()
 		defer removeAll(dir)
 		if it.p.pregen {
-			first := c11pkg{it.p.calls[:1], false, it.p.userFn, it.p.userVar, false, false}
+			first := c11pkg{it.p.calls[:1], false, it.p.userFn, it.p.userVar, false, false, false}
 			writePkg(dir, first.files())
 			if pr := goderive(dir, "."); pr.Exit != 0 {
 				rep.Violation("rejected-but-must-succeed|flags=(no flags)|single-call", fmt.Sprintf("single call %s rejected: %s", first.label(), head(firstErrorLine(pr.Stderr), 200)), map[string]interface{}{"engine": "e2", "files": first.files()})
@@ -229,6 +260,9 @@ func checkC11(tier string) {
 			key := fmt.Sprintf("%s|flags=%s|conflict=%v|duplicate=%v|userfn=%v|pregen=%v|lateuse=%v", clause, flagStr, conflict, dup, it.p.userFn, it.p.pregen, it.p.lateUse)
 			if it.p.userVar {
 				key += "|uservar"
+			}
+			if it.p.late {
+				key += "|late-args"
 			}
 			if it.p.calls[0].plugin == "Clone" || it.p.calls[0].plugin == "DeepCopy" {
 				key += "|clone+deepcopy"
@@ -352,7 +386,7 @@ func checkC11(tier string) {
 	rep.Cov["evaluations"] = len(items)
 	rep.Cov["distinct_nontrivial"] = nontriv
 	rep.Cov["result_type_checks"] = typechecks
-	rep.Cov["rule"] = "state = one package: a sequence of up to k derive calls, each (plugin in {Equal, Compare}) x (name in {bare prefix, prefix+A, prefix+B}) x (argument type in three pairwise non-assignable named struct pointers), in one file or split over two, with or without user functions (func declarations, or package-level variables of function type) that are called and carry the first fresh names goderive would mint (deriveEqual_, deriveCompare_), from scratch or on top of the derived.gen.go an earlier run produced for the first call alone; plus all sequences up to k over {Clone(*T1), Clone(*T2)} and DeepCopy x {bare, A} x {*T1, *T2} (Clone requests a DeepCopy helper itself); transition = one run of the real goderive on a fresh copy under one of the four flag combinations, exit status compared with the independently computed conflict/duplicate predicate, results of successful runs type-checked in-process and (for -dedup) checked for one function per plugin and parameter list; non-trivial = runs on packages with at least one clash"
+	rep.Cov["rule"] = "state = one package: a sequence of up to k derive calls, each (plugin in {Equal, Compare}) x (name in {bare prefix, prefix+A, prefix+B}) x (argument type in three pairwise non-assignable named struct pointers), in one file or split over two, with or without user functions (func declarations, or package-level variables of function type) that are called and carry the first fresh names goderive would mint (deriveEqual_, deriveCompare_), from scratch or on top of the derived.gen.go an earlier run produced for the first call alone; and with every call after the first taking a derive call as its first argument (the clash only exists from the second pass on; sequences of length 2 [all lengths]); the alphabet also holds the curried one-argument form of Equal (a different argument list under the same name); plus all sequences up to k over {Clone(*T1), Clone(*T2)} and DeepCopy x {bare, A} x {*T1, *T2} (Clone requests a DeepCopy helper itself); transition = one run of the real goderive on a fresh copy under one of the four flag combinations, exit status compared with the independently computed conflict/duplicate predicate, results of successful runs type-checked in-process and (for -dedup) checked for one function per plugin and parameter list; non-trivial = runs on packages with at least one clash"
 	rep.Cov["bound"] = fmt.Sprintf("all call sequences of length 1..%d over an 18-call alphabet x {one file, two files} x {no user functions, user functions} x {from scratch, after an earlier run on the first call} = %d package states x 4 flag sets", kmax, states)
 	rep.Cov["distinct_outcomes"] = outcomes
 	rep.Cov["exhaustive"] = true
